@@ -210,6 +210,20 @@ class Expander:
         if d.kind == 'handler':
             return mk('__exc__')
         if isinstance(s, ast.Assign):
+            if isinstance(s.value, ast.List) and not s.value.elts and len(s.targets) == 1 and isinstance(s.targets[0], ast.Name) \
+                    and s.targets[0].id == ident and isinstance(self.func, FuncInfo):
+                # an empty list filled by one append per iteration of a loop is that loop written as a comprehension
+                try:
+                    from ..rules.common import accumulation_alternatives
+                    alts = accumulation_alternatives(self.func, ident)
+                except Exception:
+                    alts = None
+                if alts:
+                    vals = []
+                    for comp, lp in alts:
+                        at = self.cfg.node_of(lp) if self.cfg is not None else d
+                        vals.append(self._exp(comp, at or d, visiting, bound))
+                    return vals[0] if len(vals) == 1 else mk('__phi__', *vals)
             for t in s.targets:
                 r = self._from_target(t, s.value, ident, d, visiting, bound)
                 if r is not None:
